@@ -38,7 +38,7 @@ for m in mutants.M:
 log = subprocess.run(["git", "-C", REPO, "log", "--format=%h %s", "--reverse"], capture_output=True, text=True).stdout.splitlines()
 REVERT_EXPECT = {
  "return a parse error instead of panicking": ["C03", "C04", "C05"],
- "keep LicenseRef terms": ["C01", "C03", "C06", "C10"],
+ "keep LicenseRef terms": ["C01", "C06", "C10"],  # the panic half of D2 needed expandAnd()[0], which c9ff32a removed
  "keep every alternative of an AND": ["C01", "C06", "C10"],
  "copy the left alternative": ["C01", "C06", "C10"],
  "do not drop the character": ["C05"],
